@@ -17,7 +17,9 @@ for name in sorted(os.listdir(os.path.join(HERE, "seeded"))):
     needs = re.sub(r"\s+", " ", str(meta.get("needs_to_manifest", ""))).strip()
     cut = lambda t, n: (t[:n].rsplit(" ", 1)[0] + " ...") if len(t) > n else t
     rc, secs, sigs = rows.get(name, (None, None, []))
-    if rc == 1:
+    if meta.get("obsolete"):
+        verdict = "(obsolete: " + str(meta["obsolete"])[:90] + " ...)"
+    elif rc == 1:
         caught += 1
         verdict = "`" + "`, `".join(s.replace("|", "\\|") for s in sigs[:2]) + "`" + (" ..." if len(sigs) > 2 else "") + f" ({secs} s)"
     elif rc == 0:
